@@ -327,6 +327,10 @@ func c16Judge(c c16Case, got []timedRec, emitted []time.Duration, cut time.Durat
 				return
 			}
 		}
+		if term != nil && term.K == 'E' && cat.ErrKey(term.Err) != "timeout" && !(c.End == 'E' && cat.ErrKey(term.Err) == "e1") {
+			fail("unexpected-error", fmt.Sprintf("%s: ended with %v, which is neither the source's error nor a timeout;%s", desc, term.Err, show()))
+			return
+		}
 		if term != nil && term.K == 'E' && cat.ErrKey(term.Err) == "timeout" {
 			// only after a full quiet period: no value (and no subscription) within the preceding d
 			last := time.Duration(0)
